@@ -50,6 +50,7 @@ Ws    == 3
 MkA(vs) == SeqOf(Len(vs), LAMBDA k : Dual(vs[k], Wa(k)))
 MkB(vs) == SeqOf(Len(vs), LAMBDA k : Dual(vs[k], Wb(k)))
 MkS(v)  == Dual(v, Ws)
+MkV(vs) == SeqOf(Len(vs), LAMBDA k : <<vs[k], 0>>)     \* plain values (construction from value lists)
 NoS     == Z
 
 Tuples(n, D) == IF n = 0 THEN {<<>>} ELSE [1..n -> D]
@@ -115,7 +116,7 @@ Families ==
 \cup {Fam(op, sh[1], -1, sh[2]) : op \in {"MdotV", "VdotM"}, sh \in PosShapes}
 \cup {Fam(op, sh[1], sh[2], 0) : op \in {"MaddM", "MsubM", "MmulM", "MdivM", "MaddS", "MsubS", "MmulS", "MdivS",
                                          "Set", "Reset", "SetIdentity", "Equals", "As", "New", "Outer"}, sh \in MatShapes}
-\cup {Fam("MdotM", sh[1], sh[2], k) : sh \in PosShapes, k \in {i \in Inner : sh[1] * i <= 6 /\ i * sh[2] <= 6}}
+\cup {Fam("MdotM", q[1][1], q[1][2], q[2]) : q \in {z \in PosShapes \X Inner : z[1][1] * z[2] <= 6 /\ z[2] * z[1][2] <= 6}}
 
 \* receivers of a family (the second level of the state graph)
 FamReceivers(f) ==
@@ -157,8 +158,8 @@ ForCases(f, r, P(_)) ==
     [] f.op \in {"Reset", "SetIdentity"} -> P(Case(f.op, r, NoOpd, NoOpd, NoS, dims))
     [] f.op = "New" ->    \* construction from index/value lists: reps = which indices are listed (zeros may be listed); s[1] = list order
          \E x \in Tuples(n, V3) : \E ord \in {0, 1} :
-            P(Case(f.op, r, [rows |-> f.rows, cols |-> f.cols, c |-> MkA(x),
-                             reps |-> [k \in (OpKinds(MkA(x)) \ {"d"}) |-> Stored(k, MkA(x))]], NoOpd, MkS(ord), dims))
+            P(Case(f.op, r, [rows |-> f.rows, cols |-> f.cols, c |-> MkV(x),
+                             reps |-> [k \in (OpKinds(MkV(x)) \ {"d"}) |-> Stored(k, MkV(x))]], NoOpd, MkS(ord), dims))
     [] f.op = "Equals" ->  \* the receiver holds a content itself (storage r.k); the result is a boolean
          \E x \in Tuples(n, Doms(n, n, V3, V2a, V3, {0, 1})[1]) : r.k \in OpKinds(MkA(x)) /\
            \E y \in Tuples(n, Doms(n, n, V3, V2a, V3, {0, 1})[2]) :
